@@ -27,7 +27,7 @@ func ruleC16(c *Ctx) {
 	c.RequireWriters(W, "Checkpoint.Status=Justified", tCP, "Status", constValFilter(c, pState, "Justified"), map[string]string{
 		"(*protocol/casper.Casper).setJustified": "the justification transition",
 
-		"(*protocol.Chain).initChainStatus":      "genesis checkpoint is justified by definition",
+		"(*protocol.Chain).initChainStatus": "genesis checkpoint is justified by definition",
 	})
 	c.RequireWriters(W, "Checkpoint.Status=Finalized", tCP, "Status", constValFilter(c, pState, "Finalized"), map[string]string{
 		"(*protocol/casper.Casper).setFinalized": "the finalization transition",
@@ -119,7 +119,10 @@ func ruleC17(c *Ctx) {
 	c.RequireCall(R, va, true, "(*protocol/casper.verification).verifySignature")
 	c.RequireGuard("guard", va, "source and target are epoch boundaries", readsField("", "BlocksOfEpoch"), readsField("protocol/casper.verification", "SourceHeight"))
 	c.RequireGuard("guard", va, "target is an epoch boundary", readsField("", "BlocksOfEpoch"), readsField("protocol/casper.verification", "TargetHeight"))
-	c.RequireGuard("guard", va, "source below target", readsField("protocol/casper.verification", "SourceHeight"), readsField("protocol/casper.verification", "TargetHeight"), func(v ssa.Value) bool { b, ok := v.(*ssa.BinOp); return ok && b.Op.String() != "%" && b.Op.String() != "!=" && b.Op.String() != "==" })
+	c.RequireGuard("guard", va, "source below target", readsField("protocol/casper.verification", "SourceHeight"), readsField("protocol/casper.verification", "TargetHeight"), func(v ssa.Value) bool {
+		b, ok := v.(*ssa.BinOp)
+		return ok && b.Op.String() != "%" && b.Op.String() != "!=" && b.Op.String() != "=="
+	})
 	vs := c.Func(pCasper, "(*verification).verifySignature")
 	c.RequireGuard("guard", c.ScopeFunc(vs), "signature verifies", callsKey("(crypto/ed25519/chainkd.XPub).Verify"))
 	if vs != nil {
@@ -184,8 +187,8 @@ func ruleC17(c *Ctx) {
 	// who may put signatures into a checkpoint's sup links
 	c.RequireWriters("whowrites", "Checkpoint.SupLinks", tCP, "SupLinks", nil, map[string]string{
 		"(*protocol/state.Checkpoint).AddVerification": "verified admission",
-		"(*database.Store).GetCheckpoint":             "merge of stored header links into a copy",
-		"(*database.Store).loadCheckpointsFromIter":   "merge of stored header links on reload",
+		"(*database.Store).GetCheckpoint":              "merge of stored header links into a copy",
+		"(*database.Store).loadCheckpointsFromIter":    "merge of stored header links on reload",
 	})
 	// stored header links are block-carried bytes: the reload paths merge them unfiltered
 	for _, fn := range []string{"(*Store).GetCheckpoint", "(*Store).loadCheckpointsFromIter"} {
